@@ -11,7 +11,7 @@ import tempfile
 import time
 
 VERIF = os.path.dirname(os.path.dirname(os.path.abspath(__file__)))
-PY = os.path.join(VERIF, '.venv', 'bin', 'python')
+PY = sys.executable
 NPROC = int(os.environ.get('VERIF_NPROC', '16'))
 EXIT_OK, EXIT_VIOLATION, EXIT_HARNESS = 0, 1, 3
 
